@@ -71,6 +71,15 @@ CHECKS = {
             'monitor checks launch-before-output, final-output-observed and bounded termination. One window defect was found and fixed, one is a known finding.',
             'notification delivered by calling notify_all_producers_finished(); window of 26 virtual seconds before the event, horizon 400 s after; canonical schedule otherwise',
             'DESIGN.md §3 C13'),
+    'C14': ('fault_enumeration', 'exhaustive enumeration of every crash point, torn-write prefix and I/O error of the recorded write log of every update, under an unbuffered and a buffered file model',
+            'E3',
+            'A Python-level interposer records the numbered write log (open/write/flush/close/rename/remove) of the real writers (Status.update, OutputAgent.updateLogs, '
+            'StatusMonitor.try_generate_status_details, store_unreplicated_flowir_to_disk/_generate_instance_files). For each of 4 successive updates and EVERY log entry a crash '
+            '(before the entry; for data entries after none/half/all-but-one byte) and an I/O error (execution continues) are injected under two file models; afterwards the REAL '
+            'loader must return the complete previous or the complete new version. Clean histories check fidelity for 17 awkward strings in every string field. '
+            'Six defects found and fixed, one recorded as a known finding.',
+            'rename/replace atomicity and ordering are assumed POSIX; the interposer covers the file operations the anchored writers use (checked by its self-test)',
+            'DESIGN.md §2.3, §3 C14'),
     'C17': ('exploration', 'exhaustive enumeration of platform x environment-definition x selection-spelling x launch-environment combinations against an independent environment model with a leak check',
             'E2',
             'Every combination of platform, package default environment shape, 7x6 named-environment layer templates, selection spelling (unset, empty, none/NONE, '
